@@ -11,7 +11,7 @@ if TYPE_CHECKING:
 
     from dask.delayed import Delayed
 
-from dask.base import named_schedulers
+from dask.base import is_dask_collection, named_schedulers, tokenize
 from dask.utils import SerializableLock
 
 from dask.utils import is_arraylike
@@ -296,7 +296,9 @@ def store(
                 lock=lock,
                 return_stored=return_stored,
                 load_stored=load_stored,
-                name="store-map",
+                # a target is identified by the object, not its current contents:
+                # two targets holding equal values are still two stores
+                name="store-map-" + tokenize(t if is_dask_collection(t) else id(t)),
                 meta=s._meta,
             )
         )
